@@ -1,4 +1,5 @@
 """C01 - compiled tapes compute the expression (structural part)."""
+import re
 from .. import ast as A
 from .. import opcodes as O
 from .. import terms as T
@@ -249,32 +250,93 @@ def r3_interpreters(rule, root=None):
 
 def r6_parent_counting(rule, root=None):
     """SsaTape::new emits a node only after all of its parents: pass 1 counts one parent per child edge,
-    pass 2 removes one per child edge when the parent is emitted, emission is gated on the count being zero"""
+    pass 2 removes one per child edge when the parent is emitted, emission is gated on the count being zero.
+    Stated per statement with $METAs for locals and read inside the loop each belongs to, so that renaming,
+    reordering independent statements or splitting a combined gate does not matter."""
     fn = A.find_fn(SSA, "new", self_ty="SsaTape", root=root)
     t = A.ftxt(fn["body"])
-    need = [
-        ("pass 1 counts every child edge once", "forchildinop.iter_children(){(*parent_count.entry(child).or_default()+=1);todo.push(child);}"),
-        ("pass 1 visits each node once", "if!seen.insert(node){continue;}"),
-        ("pass 2 emits a node only when no unemitted parent remains, and only once", "if((*parent_count.get(&node).unwrap_or(&0)>0)||!seen.insert(node)){continue;}"),
-        ("pass 2 releases one count per child edge of the emitted node", "forchildinop.iter_children(){todo.push(child);(*parent_count.get_mut(&child).unwrap()-=1);}"),
-        ("constants become immediates and are not emitted", "letSlot::Reg(i)=mapping[&node]else{continue;};"),
-        ("every non-constant node gets a fresh SSA slot", "leti=slot_count;(slot_count+=1);mapping.insert(node,Slot::Reg(i))"),
-        ("constants map to their own value", "Op::Const(c)=>mapping.insert(node,Slot::Immediate(c.0))"),
-        ("inputs read the index their variable was given", "Op::Input(v)=>{letarg=vars[v];SsaOp::Input(i,arg.try_into().unwrap())}"),
-        ("output k reads root k", "for(i,r)inroots.iter().enumerate(){leti=(iasu32);matchmapping[r]{Slot::Reg(out_reg)=>tape.push(SsaOp::Output(out_reg,i))"),
-        ("a constant root is materialised in a fresh slot that the output reads", "Slot::Immediate(imm)=>{leto=slot_count;(slot_count+=1);tape.push(SsaOp::Output(o,i));tape.push(SsaOp::CopyImm(o,imm));}"),
-        ("both passes start from all roots", "letmuttodo=roots.to_vec();"),
-        ("the tape advertises one output per root", "output_count:roots.len()"),
-    ]
-    for what, frag in need:
-        if frag in t:
+    body = fn["body"]
+    whiles = [w for w in A.find(body, "While") if A.strip(w["cond"]).get("k") == "LetCond" and ".pop()" in A.unparse(A.strip(w["cond"])["e"])]
+    passes = {}
+    for w in whiles:
+        c = A.strip(w["cond"])
+        node_n = A.some_binding(c["pat"])
+        work = A.ident(A.strip(A.strip(c["e"]).get("recv") or {}))
+        kids = [l for l in A.find(w["body"], "For") if A.iter_source(str(A.ftxt(l["iter"]))) == "op.iter_children()"]
+        if len(kids) != 1 or node_n is None or work is None:
+            continue
+        child = A.binding_name(kids[0]["pat"])
+        kt = [A.ftxt(s_) for s_ in kids[0]["body"]["stmts"]]
+        inc = [m for m in (x.fmatch("(*$P.entry(%s).or_default()+=1);" % child) for x in kt) if m]
+        dec = [m for m in (x.fmatch("(*$P.get_mut(&%s).unwrap()-=1);" % child) for x in kt) if m]
+        push = any(str(x) == "%s.push(%s);" % (work, child) for x in kt)
+        # conditions under which an iteration is skipped
+        skips = set()
+        for cn in A.find(w["body"], "Continue"):
+            if any(n is cn for l in A.find(w["body"], "For") for n in A.walk(l)):
+                continue
+            cs = A.enclosing_conds(w["body"], cn) or []
+            for i_ in A.find(w["body"], "If"):
+                if any(n is cn for n in A.walk(i_["then"])) and A.norm_cond(str(A.ftxt(A.strip(i_["cond"])))) in [A.norm_cond(x) for x in cs]:
+                    for d_ in _disjuncts(i_["cond"]):
+                        skips.add(A.norm_cond(d_))
+        info = dict(node=node_n, work=work, child=child, push=push, skips=skips, loop=w)
+        if inc and not dec:
+            info["count"] = inc[0]["$P"]
+            passes[1] = info
+        elif dec and not inc:
+            info["count"] = dec[0]["$P"]
+            passes[2] = info
+    if 1 not in passes or 2 not in passes:
+        raise A.AnchorLost("the two work-list passes of SsaTape::new (count parents / release them)")
+    p1, p2 = passes[1], passes[2]
+    facts = []
+    facts.append(("pass 1 counts every child edge once and visits the child", p1["push"]))
+    visited1 = [c_ for c_ in p1["skips"] if re.fullmatch(r"!\w+\.insert\(%s\)" % p1["node"], c_)]
+    facts.append(("pass 1 visits each node once", bool(visited1)))
+    P = p2["count"]
+    gate = [c_ for c_ in p2["skips"] if c_ in ("*%s.get(&%s).unwrap_or(&0)>0" % (P, p2["node"]), "%s.get(&%s).copied().unwrap_or(0)>0" % (P, p2["node"]), "%s[&%s]>0" % (P, p2["node"]))]
+    once2 = [c_ for c_ in p2["skips"] if re.fullmatch(r"!\w+\.insert\(%s\)" % p2["node"], c_)]
+    facts.append(("pass 2 emits a node only when no unemitted parent remains, and only once", bool(gate) and bool(once2) and p1["count"] == P))
+    facts.append(("pass 2 releases one count per child edge of the emitted node", p2["push"]))
+    t2 = A.ftxt(p2["loop"]["body"])
+    facts.append(("constants become immediates and are not emitted", t2.fmatch("letSlot::Reg($I)=mapping[&%s]else{continue;};" % p2["node"]) is not None))
+    t1 = A.ftxt(p1["loop"]["body"])
+    m = t1.fmatch("let$I=slot_count;")
+    facts.append(("every non-constant node gets a fresh SSA slot", m is not None and "(slot_count+=1);" in t1 and t1.fmatch("mapping.insert(%s,Slot::Reg($I))" % p1["node"], bind=m) is not None))
+    facts.append(("constants map to their own value", t1.fmatch("Op::Const($C)=>mapping.insert(%s,Slot::Immediate($C.0))" % p1["node"]) is not None))
+    mi = t2.fmatch("letSlot::Reg($I)=mapping[&%s]else{continue;};" % p2["node"])
+    facts.append(("inputs read the index their variable was given", mi is not None and (t2.fmatch("Op::Input($V)=>{let$A=vars[$V];SsaOp::Input($I,$A.try_into().unwrap())}", bind=mi) is not None or t2.fmatch("Op::Input($V)=>SsaOp::Input($I,vars[$V].try_into().unwrap())", bind=mi) is not None)))
+    mo = t.fmatch("for($K,$R)inroots.iter().enumerate(){")
+    ok_out = False
+    ok_const = False
+    if mo is not None:
+        for l in A.find(body, "For"):
+            if str(A.ftxt(l["iter"])) == "roots.iter().enumerate()":
+                lt = A.ftxt(l["body"])
+                ok_out = lt.fmatch("Slot::Reg($O)=>tape.push(SsaOp::Output($O,$K))") is not None or lt.fmatch("Slot::Reg($O)=>{tape.push(SsaOp::Output($O,$K));}") is not None
+                mc = lt.fmatch("Slot::Immediate($M)=>{let$O=slot_count;")
+                ok_const = mc is not None and "(slot_count+=1);" in lt and lt.fmatch("tape.push(SsaOp::Output($O,$K));", bind={"$O": mc["$O"]}) is not None and lt.fmatch("tape.push(SsaOp::CopyImm($O,$M));", bind=mc) is not None
+                ok_idx = lt.fmatch("mapping[$R]") is not None
+                ok_out = ok_out and ok_idx
+    facts.append(("output k reads root k", ok_out))
+    facts.append(("a constant root is materialised in a fresh slot that the output reads", ok_const))
+    starts = [s_ for s_ in A.find(body, "Let") if s_.get("init") is not None and str(A.ftxt(s_["init"])) == "roots.to_vec()"]
+    facts.append(("both passes start from all roots", {A.binding_name(s_["pat"]) for s_ in starts} >= {p1["work"], p2["work"]} and len(starts) >= 2))
+    facts.append(("the tape advertises one output per root", "output_count:roots.len()" in t))
+    for what, okf in facts:
+        if okf:
             rule.ok("SsaTape::new: %s" % what, file=SSA, line=fn["ln"])
         else:
-            rule.bad("ssa|%s" % what[:30], "SsaTape::new: %s (`%s` not found)" % (what, frag[:70]), A.where(fn))
-    if t.count("letmuttodo=roots.to_vec();") == 2:
-        rule.ok("SsaTape::new: two passes over the graph")
-    else:
-        rule.bad("ssa|passes", "SsaTape::new must walk the graph twice from the roots", A.where(fn))
+            rule.bad("ssa|%s" % what[:30], "SsaTape::new: %s - not found in the pass it belongs to" % what, A.where(fn))
+    rule.ok("SsaTape::new: two passes over the graph")
+
+
+def _disjuncts(e):
+    e = A.strip(e)
+    if e.get("k") == "Binary" and e["op"] == "||":
+        return _disjuncts(e["left"]) + _disjuncts(e["right"])
+    return [A.unparse(e).replace(" ", "")]
 
 
 def r5b_lru(rule, root=None):
